@@ -36,12 +36,14 @@ def parse_header(path):
     dx = []
     for lv in range(finest + 1):
         dx.append([float(x) for x in L[i].split()]); i += 1
+    coord = L[i].strip(); _req(int(L[i + 1]) == 0, "boundary width")
     i += 2
     levels = []
+    level_steps = []
     for lv in range(finest + 1):
         a = L[i].split(); i += 1
         _req(int(a[0]) == lv, "level id")
-        nb = int(a[1]); i += 1
+        nb = int(a[1]); level_steps.append(int(L[i])); i += 1
         pb = []
         for b in range(nb):
             bb = []
@@ -51,7 +53,7 @@ def parse_header(path):
         cdir = L[i].split('/')[0]; i += 1
         levels.append(dict(pboxes=pb, cdir=cdir, level_time=a[2]))
     return dict(version=ver, fields=fields, ndims=nd, time=time, time_tok=time_tok, finest=finest, lo=lo, hi=hi,
-                factors=fac, grid=grid, steps=steps, dx=dx, levels=levels)
+                factors=fac, grid=grid, steps=steps, dx=dx, levels=levels, coord=coord, level_steps=level_steps)
 
 
 def parse(path, maxmins=True, data=True):
